@@ -46,7 +46,7 @@ impl Prop for C06 {
         shrink_case(case)
     }
     fn rule() -> String {
-        format!("(systematic part) every located field of a fixed list of 20 seed images (first the everything-at-once image: one track per kind, every metadata and layout variant, a leading free box in every container; two regular files continued by fragments) x 13 boundary values, one substitution per run (thorough: all {} (image, field, value) triples; quick: the first 50 000), then coordinated pairs: the size of every leaf box and one of its first three words inflated together (4 x 5 values; thorough: all {} pairs, quick: the first 10 000), then {} vacuous-ancestor cases on images whose boxes all have 64-bit headers (the outermost or every enclosing box claims a size with the top bit set while a leaf lies about its size and a count); {}", crate::modee::sweep_total(), crate::modee::pair_total(), crate::modee::vac_total(), "(seeded part) seed image (canned files, real-muxer outputs incl. moov-first relocation, metadata/wave/64-bit-header variants, packager fragmented streams, init+segment pairs, muxer crash images) with 0-6 seeded storage faults (>= 60 % boundary values written into located length/count/offset/version/flag fields; bit flips, stuck bytes, zeroed / copied / dropped / duplicated ranges, cuts, garbled fourccs; 25 % with a further fault between two reader calls), then read_header, read_fragment_header and the full accessor schedule (every Mp4Reader/Mp4Track accessor, sample_count/sample_offset/read_sample for boundary ids, to_json/summary of every parsed box) under catch_unwind in the overflow-checked and the wrapping build; distinct_nontrivial = distinct (fault kind, box path:field, outcome class) triples")
+        format!("(systematic part) every located field of a fixed list of 20 seed images (first the everything-at-once image: one track per kind, every metadata and layout variant, a leading free box in every container; two regular files continued by fragments) x 13 boundary values, one substitution per run (thorough: all {} (image, field, value) triples; quick: the first 50 000), then coordinated pairs: the size of every leaf box and one of its first three words inflated together (4 x 5 values; thorough: all {} pairs, quick: the first 10 000), then {} vacuous-ancestor cases on images whose boxes all have 64-bit headers (one enclosing box, or every enclosing box, claims a size with the top bit set while a leaf lies about its size and a count); {}", crate::modee::sweep_total(), crate::modee::pair_total(), crate::modee::vac_total(), "(seeded part) seed image (canned files, real-muxer outputs incl. moov-first relocation, metadata/wave/64-bit-header variants, packager fragmented streams, init+segment pairs, muxer crash images) with 0-6 seeded storage faults (>= 60 % boundary values written into located length/count/offset/version/flag fields; bit flips, stuck bytes, zeroed / copied / dropped / duplicated ranges, cuts, garbled fourccs; 25 % with a further fault between two reader calls), then read_header, read_fragment_header and the full accessor schedule (every Mp4Reader/Mp4Track accessor, sample_count/sample_offset/read_sample for boundary ids, to_json/summary of every parsed box) under catch_unwind in the overflow-checked and the wrapping build; distinct_nontrivial = distinct (fault kind, box path:field, outcome class) triples")
     }
     fn assumptions() -> Vec<String> {
         vec![
